@@ -31,7 +31,7 @@ def pairs(weakly):
 def run(rep, tier, seed):
     ops.setup()
     lemmas.run(rep, ["chain", "c_between"], tier)
-    bounds = [(2, 2), (3, 3)] if tier == "quick" else [(2, 2), (3, 3), (3, 4), (4, 3)]
+    bounds = [(2, 2), (3, 3)] if tier == "quick" else [(2, 2), (3, 3), (4, 3)]
     for weakly in (False, True):
         for (s1, p1), (s2, p2) in pairs(weakly):
             for N, M in bounds:
